@@ -240,10 +240,11 @@ class SubMutezInstruction(MichelsonInstruction, prim='SUB_MUTEZ'):
         a, b = cast(Tuple[MutezType, MutezType], stack.pop2())
         a.assert_type_equal(MutezType)
         b.assert_type_equal(MutezType)
-        try:
-            res = OptionType.from_some(MutezType.from_value(int(a) - int(b)))
-        except OverflowError:
+        diff = int(a) - int(b)
+        if diff < 0:
             res = OptionType.none(MutezType)
+        else:
+            res = OptionType.from_some(MutezType.from_value(diff))
         stack.push(res)
         stdout.append(format_stdout(cls.prim, [a, b], [res]))  # type: ignore
         return cls(stack_items_added=1)
